@@ -390,3 +390,105 @@ Example legacy_partial_example :
   exists r', legacy (fun _ => DbError) r "bbbbb" = LFwd r' /\
              carried r' = ["v2/aaaaa-gj3su-000000000000000/002f0c7aece57b9244af4922fc8e857b13422a62"].
 Proof. cbv zeta. split; [reflexivity|]. split; [reflexivity|]. eexists. split; vm_compute; reflexivity. Qed.
+
+(* ---------- Handler.remoteClusterRequest: what is put on the wire ---------- *)
+Lemma lreq_eta s : {| l_auth := l_auth s; l_query := l_query s; l_ctype := l_ctype s; l_form := l_form s; l_cookie := l_cookie s |} = s.
+Proof. destruct s; reflexivity. Qed.
+
+(* the request put on the wire is the one saltAuthToken returned: in particular its query string *)
+Theorem remote_request_is_salted_request db r remote : remote_request db r remote = legacy db r remote.
+Proof.
+  unfold remote_request, remote_request_k. fold (legacy db r remote).
+  destruct (legacy db r remote) as [|s]; [reflexivity|]. rewrite lreq_eta. reflexivity.
+Qed.
+
+Theorem wire_leak_confined db r remote w t0 rest :
+  remote_request db r remote = LFwd w -> load_tokens r = t0 :: rest ->
+  (exists out, l_auth w = ABearer out /\
+     (salt_token t0 remote = Salted out \/
+      ((salt_token t0 remote = ErrObsolete \/ salt_token t0 remote = ErrFormat) /\
+       (out = t0 \/ exists user auth_uuid secret, db t0 = DbFound user auth_uuid secret /\
+                                                 salt_token ("v2/" ++ auth_uuid ++ "/" ++ secret) remote = Salted out)))) /\
+  values "api_token" (l_query w) = [] /\ l_form w = l_form r /\ l_cookie w = l_cookie r.
+Proof. rewrite remote_request_is_salted_request. apply legacy_leak_confined. Qed.
+
+Theorem wire_carries_only_salted_partial db r remote w t0 rest uuid secret :
+  values "api_token" (l_form r) = [] -> l_cookie r = None ->
+  remote_request db r remote = LFwd w -> load_tokens r = t0 :: rest ->
+  v2_fields t0 uuid secret -> is_salted_secret secret = false ->
+  carried w = ["v2/" ++ uuid ++ "/" ++ hmac_sha1_hex secret remote].
+Proof. rewrite remote_request_is_salted_request. apply legacy_forwards_only_salted_partial. Qed.
+
+(* ---------- federation.Conn.ContainerRequestCreate ---------- *)
+(* without an explicit runtime_token: a current token issued by this cluster is never what is forwarded;
+   a fresh token is created for the current user instead *)
+Theorem crc_local_token_minted local uuid api scopes user :
+  has_prefix local uuid = true -> scope_all scopes = true ->
+  crc_runtime_token local None (Some (uuid, api, scopes)) (Some user) = CrtMint user.
+Proof. intros Hp Hs. unfold crc_runtime_token. rewrite Hs, Hp. reflexivity. Qed.
+
+Theorem crc_current_token_only_if_foreign local aca user t :
+  crc_runtime_token local None aca user = CrtCurrent t ->
+  exists uuid api scopes, aca = Some (uuid, api, scopes) /\ has_prefix local uuid = false /\
+                          scope_all scopes = true /\ t = "v2/" ++ uuid ++ "/" ++ api.
+Proof.
+  unfold crc_runtime_token. destruct aca as [[[uuid api] scopes]|]; [|discriminate].
+  destruct user as [u|]; [|discriminate]. destruct (scope_all scopes) eqn:Hs; cbn [negb]; [|discriminate].
+  destruct (has_prefix local uuid) eqn:Hp; [discriminate|]. intro H. injection H as <-.
+  exists uuid, api, scopes. auto.
+Qed.
+
+Theorem crc_given_token_untouched local t aca user : crc_runtime_token local (Some t) aca user = CrtGiven t.
+Proof. reflexivity. Qed.
+
+(* the whole call: whatever the provider and the minting do, the runtime_token sent to the remote is the
+   given one, a freshly created one, or the v2 form of a current token issued by another cluster *)
+Theorem crc_sent_runtime_token lookup mint local remotes target creds rt aca user a t :
+  crc lookup mint local remotes target creds rt aca user = CrcSent a t ->
+  is_remote local remotes target = true /\
+  (rt = Some t \/
+   (rt = None /\ exists uuid api scopes, aca = Some (uuid, api, scopes) /\ scope_all scopes = true /\
+      ((has_prefix local uuid = true /\ exists u, user = Some u /\ mint u = Some t) \/
+       (has_prefix local uuid = false /\ t = "v2/" ++ uuid ++ "/" ++ api)))).
+Proof.
+  unfold crc, crc_k. destruct (is_remote local remotes target); cbn [negb]; [|discriminate]. intro H. split; [reflexivity|].
+  set (dest := match cluster_of target with Some c => c | None => "" end) in *.
+  assert (Hsend : forall x, match provider_k hmac_sha1_hex lookup dest (Some creds) with
+                            | None => CrcErr | Some [] => CrcSent "Bearer -" x | Some (a0 :: _) => CrcSent ("Bearer " ++ a0) x end = CrcSent a t -> x = t).
+  { intros x Hx. destruct (provider_k hmac_sha1_hex lookup dest (Some creds)) as [[|a0 l]|]; try discriminate; injection Hx; auto. }
+  destruct rt as [g|].
+  - cbn [crc_runtime_token] in H. apply Hsend in H. left. congruence.
+  - right. split; [reflexivity|].
+    destruct (crc_runtime_token local None aca user) as [g|u|c|] eqn:E; try discriminate.
+    + unfold crc_runtime_token in E. destruct aca as [[[uuid api] scopes]|]; [|discriminate].
+      destruct user; [|discriminate]. destruct (negb (scope_all scopes)); [discriminate|]. destruct (has_prefix local uuid); discriminate.
+    + unfold crc_runtime_token in E. destruct aca as [[[uuid api] scopes]|]; [|discriminate].
+      destruct user as [u'|]; [|discriminate]. destruct (scope_all scopes) eqn:Hs; cbn [negb] in E; [|discriminate].
+      destruct (has_prefix local uuid) eqn:Hp; [|discriminate]. injection E as ->.
+      exists uuid, api, scopes. split; [reflexivity|]. split; [exact Hs|]. left. split; [exact Hp|].
+      exists u. split; [reflexivity|]. destruct (mint u) as [m|]; [|discriminate]. apply Hsend in H. congruence.
+    + apply crc_current_token_only_if_foreign in E. destruct E as (uuid & api & scopes & -> & Hp & Hs & ->).
+      apply Hsend in H. subst t. exists uuid, api, scopes. auto 6.
+Qed.
+
+(* ... and its Authorization header is the first token the salted token provider returns for that cluster *)
+Theorem crc_sent_authorization lookup mint local remotes target creds rt aca user a t :
+  crc lookup mint local remotes target creds rt aca user = CrcSent a t ->
+  exists dest, cluster_of target = Some dest /\
+    match provider lookup dest (Some creds) with
+    | Some (x :: _) => a = "Bearer " ++ x
+    | Some [] => a = "Bearer -"
+    | None => False
+    end.
+Proof.
+  unfold crc, crc_k, is_remote. intro H. destruct (cluster_of target) as [dest|]; cbn [negb] in H; [|discriminate].
+  exists dest. split; [reflexivity|].
+  destruct (negb (negb (dest =? local)%string && existsb (String.eqb dest) remotes)); [discriminate|].
+  fold (provider lookup dest (Some creds)) in H.
+  destruct (provider lookup dest (Some creds)) as [[|x l]|].
+  - destruct (crc_runtime_token local rt aca user); try discriminate; try (injection H; auto).
+    destruct (mint user0); [injection H; auto|discriminate].
+  - destruct (crc_runtime_token local rt aca user); try discriminate; try (injection H; auto).
+    destruct (mint user0); [injection H; auto|discriminate].
+  - destruct (crc_runtime_token local rt aca user); try discriminate. destruct (mint user0); discriminate.
+Qed.
